@@ -23,7 +23,7 @@ theorem sort_helpers_fresh :
     (effects.filter (fun e => e.kind == "fieldInit:*evaluator.sortByString" || e.kind == "fieldInit:*evaluator.sortByNumber")).all
       (fun e => e.root.all (fun p => p.1 == "fresh" || p.1 == "makeSlice" || p.1 == "const")) = true := by decide
 
-/-- [C06, C07] package-level state consists of error sentinels and one byte-slice constant, all written during init only
+/-- [C06, C07, C15] package-level state consists of error sentinels and one byte-slice constant, all written during init only
     (`effects_private` accepts stores to globals only with the `initGlobal` tag) -/
 theorem globals_are_constants : globals.all (fun g => g.2.2 == "*error" || g.2.2 == "*[]byte") = true := by decide
 
@@ -65,7 +65,7 @@ def statelessPkg (p : String) : Bool :=
   ["builtin-interface", "encoding/json", "errors", "fmt", "github.com/woodsbury/decimal128", "math", "math/big", "math/bits",
    "reflect", "slices", "maps", "sort", "strconv", "strings", "bytes", "cmp", "unicode", "unicode/utf16", "unicode/utf8"].contains p
 
-/-- [C06, C07] the library calls into no package that holds observable state (os, time, math/rand, sync, …), whatever
+/-- [C06, C07, C15] the library calls into no package that holds observable state (os, time, math/rand, sync, …), whatever
     the arguments -/
 theorem foreign_packages_stateless :
     foreignCalls.all (fun c => statelessPkg c.2 || (c.2 == "io" && c.1 == "(*parser.writeVisitor).Visit")) = true := by decide
